@@ -23,6 +23,7 @@ let () = Drv_xfer.install register get getn geti getb
 let () = Drv_req.install register get getn geti getb
 let () = Drv_req.install_listing register get geti getb
 let () = Drv_req.install_lin register get
+let () = Drv_req.install_ties register get
 
 let () =
   (try while true do
